@@ -6,6 +6,9 @@
 #include <sys/stat.h>
 #include <sys/wait.h>
 #include <unistd.h>
+#include <dlfcn.h>
+#include <elf.h>
+#include <string.h>
 
 // ---------------------------------------------------------------- byte specs
 std::string hex(const Bytes &b)
@@ -356,4 +359,68 @@ void sched_cfg_parse(const std::string &s, sim_sched_cfg *c)
 	sscanf(s.c_str(), "%d:%llu:%d:%d:%d:%d:%d:%d:%d:%d:%llu:%llu", &c->strategy, &seed, &c->pct_depth, &c->quantum,
 	       &c->spurious_pm, &c->multiwake_pm, &c->starve_pm, &c->starve_len, &c->delay_pm, &c->delay_len, &budget, &exp);
 	c->seed = seed; c->step_budget = budget; c->expected_steps = exp;
+}
+
+
+// ------------------------------------------------- start-routine names
+namespace {
+struct FuncSym { uint64_t value, size; std::string name; };
+const std::vector<FuncSym> &exe_funcs()
+{
+	static std::vector<FuncSym> v;
+	static bool done = false;
+	if (done) return v;
+	done = true;
+	bool ok;
+	Bytes f = read_file("/proc/self/exe", &ok);
+	if (!ok || f.size() < sizeof(Elf64_Ehdr)) return v;
+	const Elf64_Ehdr *eh = (const Elf64_Ehdr *)f.data();
+	if (memcmp(eh->e_ident, ELFMAG, SELFMAG) != 0 || eh->e_shoff == 0 || eh->e_shoff + (uint64_t)eh->e_shnum * sizeof(Elf64_Shdr) > f.size()) return v;
+	const Elf64_Shdr *sh = (const Elf64_Shdr *)(f.data() + eh->e_shoff);
+	for (int i = 0; i < eh->e_shnum; i++) {
+		if (sh[i].sh_type != SHT_SYMTAB || sh[i].sh_link >= eh->e_shnum) continue;
+		const Elf64_Shdr &st = sh[sh[i].sh_link];
+		if (sh[i].sh_offset + sh[i].sh_size > f.size() || st.sh_offset + st.sh_size > f.size()) continue;
+		const Elf64_Sym *sy = (const Elf64_Sym *)(f.data() + sh[i].sh_offset);
+		size_t n = sh[i].sh_size / sizeof(Elf64_Sym);
+		for (size_t k = 0; k < n; k++) {
+			if (ELF64_ST_TYPE(sy[k].st_info) != STT_FUNC || sy[k].st_name >= st.sh_size) continue;
+			v.push_back({ sy[k].st_value, sy[k].st_size, std::string(f.data() + st.sh_offset + sy[k].st_name) });
+		}
+	}
+	return v;
+}
+}
+std::string symbol_of(const void *fn)
+{
+	Dl_info di;
+	if (!dladdr(fn, &di) || !di.dli_fbase) return "";
+	if (di.dli_sname) return di.dli_sname;
+	uint64_t off = (uint64_t)((const char *)fn - (const char *)di.dli_fbase);
+	for (auto &s : exe_funcs()) if (off >= s.value && off < s.value + (s.size ? s.size : 1)) return s.name;
+	return "";
+}
+PoolThreads pool_threads(const sim_sched_stats &st)
+{
+	PoolThreads r;
+	bool unknown = false, any = false;
+	for (int i = 0; i < 8 && st.routine[i]; i++) {
+		std::string n = symbol_of(st.routine[i]);
+		if (n.find("thread_worker") != std::string::npos) { r.worker_max += st.routine_max_live[i]; r.workers_created += st.routine_created[i]; any = true; }
+		else if (n.find("result_worker") != std::string::npos || n.find("task_main") != std::string::npos) any = true;
+		else unknown = true;
+	}
+	r.named = any && !unknown;
+	return r;
+}
+std::string worker_bound_broken(const sim_sched_stats &st, uint32_t limit, uint32_t ntasks, uint32_t nhandlers)
+{
+	PoolThreads pt = pool_threads(st);
+	if (pt.named) {
+		if (pt.worker_max > limit) return std::to_string(pt.worker_max) + " worker threads alive at once, configured maximum " + std::to_string(limit);
+		return "";
+	}
+	uint64_t bound = 1ull + ntasks + nhandlers + limit;
+	if (st.max_live > bound) return std::to_string(st.max_live) + " threads alive at once; 1 + " + std::to_string(ntasks) + " caller tasks + " + std::to_string(nhandlers) + " result handlers + " + std::to_string(limit) + " workers allow " + std::to_string(bound);
+	return "";
 }
